@@ -79,8 +79,8 @@ package encoder
 
 //@ func TakeRuntimeContext() (ctx)
 //@   props C18 C11 C12 C03
-//@   trusted sync.Pool.Get returns a non-nil *RuntimeContext (built by New or stored by Put) whose field contents are arbitrary
-//@   ensures ctx != nil
+//@   trusted sync.Pool.Get returns a non-nil *RuntimeContext (built by New, whose Option is non-nil, or stored by Put) whose field contents are otherwise arbitrary
+//@   ensures ctx != nil && ctx.Option != nil
 //@   assigns nothing
 
 //@ func ReleaseRuntimeContext(ctx)
@@ -320,7 +320,7 @@ package encoder
 //@   props C14 C06
 //@   alsotags race
 //@   requires ctx != nil
-//@   requires typeAddr != nil ==> slotsOwned()
+//@   requires[global] typeAddr != nil ==> slotsOwned()
 //@   postassume initEncoder: onFastPath(typeptr) ==> gridded(typeptr)
 //@   ensures err == nil ==> set != nil && set.Type == typeptr
 //@   ensures slotsOwned()
